@@ -62,6 +62,18 @@ FIXTURES = {
                ("Definition", 0, "_children"): [1, 2], ("Definition", 1, "_children"): [3]},
         refs={0: 0, 1: 1, 2: 2, 3: 2},
         top=0),
+    # the same with a two-bit port and a two-bit net (bus indices matter): LEAF.I has two pins, TOP.n two wires
+    "eblif-bus": dict(
+        live=dict(Netlist=1, Library=2, Definition=3, Port=4, Cable=3, Wire=4, Instance=4, InnerPin=5, OuterPin=7),
+        shape={("Netlist", 0, "_libraries"): [0, 1], ("Library", 0, "_definitions"): [0, 1], ("Library", 1, "_definitions"): [2],
+               ("Definition", 0, "_ports"): [0], ("Port", 0, "_pins"): [0],
+               ("Definition", 1, "_ports"): [1], ("Port", 1, "_pins"): [1, 2],                    # SUB.A[1:0]
+               ("Definition", 2, "_ports"): [2, 3], ("Port", 2, "_pins"): [3], ("Port", 3, "_pins"): [4],
+               ("Definition", 0, "_cables"): [0, 1], ("Cable", 0, "_wires"): [0, 1], ("Cable", 1, "_wires"): [2],   # TOP.n[1:0], TOP.m
+               ("Definition", 1, "_cables"): [2], ("Cable", 2, "_wires"): [3],                   # SUB.x
+               ("Definition", 0, "_children"): [1, 2], ("Definition", 1, "_children"): [3]},
+        refs={0: 0, 1: 1, 2: 2, 3: 2},
+        top=0),
     # a wire-only cell one level down: FEED has two ports and a net but NO children (not a leaf: it owns a cable)
     # TOP(m:MID) ; MID(f:FEED, l:LEAF) ; ports MID.I, FEED.A, FEED.B, LEAF.I ; nets TOP.t, MID.w_in, MID.w_out, FEED.w
     "wire-only": dict(
